@@ -29,7 +29,8 @@ P = "C17"
 ASSUMPTIONS = [
     "network: real Network/NetworkLink, no loss, no partition, no bandwidth limit; per-message one-way delays are "
     "multiples of 1/512 s in [0,16] ticks taken from the case (the i-th message of a directed link gets delays[i mod len])",
-    "stores are KVStore with constant read/write latencies of 0..4 ticks (write latency >= 1 tick in the -safe twins); "
+    "stores are KVStore with constant read/write latencies of 0..4 ticks (write latency >= 1 tick in the -safe twins); in the "
+    "chain/craq obligations the tail's write latency is drawn independently (up to 16 ticks: slow tail); "
     "written values are unique non-None strings (None means 'absent' in the KVStore API)",
     "'later write' is judged by the sequence number the primary / chain head assigned (order in which it processed the "
     "Write events); 'applied' at acknowledgement = the replica holds the value of that write or of a later write to the key",
@@ -75,6 +76,23 @@ def pb_strategy(safe):
     return s
 
 
+def _bursts():
+    """2..3 writes to one key only 0..4 ticks apart (closer together than a slow tail's write latency)."""
+    burst = st.fixed_dictionaries({"t0": st.integers(0, 24), "k": st.sampled_from([0, 0, 1]),
+                                   "gaps": st.lists(st.integers(0, 4), min_size=1, max_size=2)})
+
+    def flat(bs):
+        out = []
+        for b in bs:
+            t = b["t0"]
+            out.append({"t": t, "k": b["k"]})
+            for g in b["gaps"]:
+                t += g
+                out.append({"t": t, "k": b["k"]})
+        return out
+    return st.lists(burst, min_size=1, max_size=3).map(flat)
+
+
 def chain_strategy(craq, safe):
     def s(tier):
         names = [f"c{i}" for i in range(4)]
@@ -82,10 +100,17 @@ def chain_strategy(craq, safe):
         reads = st.lists(st.fixed_dictionaries({
             "t": st.integers(0, 60), "k": st.sampled_from([0, 0, 1, 2]), "node": st.integers(0, 3)}),
             max_size=6)
+        # dense read scan: one read per (half) tick at every node, starting `off` ticks after the first write
+        scan = st.none() | st.fixed_dictionaries({"k": st.sampled_from([0, 0, 1]), "off": st.integers(0, 30),
+                                                  "n": st.integers(6, 32), "half": st.booleans()})
+        writes = _writes(tier) if (safe or not craq) else st.one_of(_writes(tier), _bursts(), _bursts())
         return st.fixed_dictionaries({
             "n": st.integers(2, 4), "craq": st.just(craq),
             "wl": st.lists(st.integers(0, 4), max_size=4), "rl": st.integers(0, 3),
-            "writes": _writes(tier), "reads": reads, "delays": _delays(links), "safe": st.just(safe),
+            # slow tail: its write latency is drawn independently (None = like the other nodes)
+            "twl": st.sampled_from([None, None, 5, 6, 8, 10, 12, 16]),
+            "writes": writes, "reads": reads, "scan": scan if craq else st.none(),
+            "delays": _delays(links), "safe": st.just(safe),
         })
     return s
 
@@ -293,7 +318,13 @@ def ex_chain(case):
     rl = 0 if (safe and craq) else _n(case.get("rl"), 0, 3)
     net = rn.Net(case.get("delays"))
     idx = {f"{nm}_store": i for i, nm in enumerate(names)}
-    nodes = build_chain(names, net.net, lambda sn: rn.kv(sn, rl, _wl(case, idx[sn], safe)), craq_enabled=craq)
+    twl = case.get("twl")
+    twl = _n(twl, 1, 16) if isinstance(twl, (int, float)) and not isinstance(twl, bool) else None
+
+    def node_wl(i):
+        return twl if (twl is not None and i == n - 1) else _wl(case, i, safe)
+
+    nodes = build_chain(names, net.net, lambda sn: rn.kv(sn, rl, node_wl(idx[sn])), craq_enabled=craq)
     head, tail = nodes[0], nodes[-1]
     for a, b in zip(nodes, nodes[1:]):
         net.link(a, b)
@@ -315,13 +346,24 @@ def ex_chain(case):
         if safe:
             t = (t % 3) * GAP + (t // 3) % 24
         reads.append((t * TICK + (1000 if safe else 0), KEYS[_n(rd.get("k"), 0, 2)], node))
+    sc = case.get("scan")
+    if isinstance(sc, dict) and writes:
+        k = KEYS[_n(sc.get("k"), 0, 2)]
+        start = (min(t for t, *_ in writes) + _n(sc.get("off"), 0, 60)) * TICK + (1000 if safe else 0)
+        step = TICK // 2 if sc.get("half") else TICK
+        for j in range(_n(sc.get("n"), 1, 32)):
+            for nd in (nodes if craq else [tail]):
+                reads.append((start + j * step, k, nd))
     read_arrival = {}                           # id(future) -> (first node, t_ns of first processing)
     overlap_reads = [0]
+    pending = {k: set() for k in KEYS}          # writes the head has accepted and not yet acknowledged
+    crowded_reads = [0]                         # reads arriving while >= 2 writes to their key are unacknowledged
 
     def on_resolved(f, t):
         kind, key, value, node = f[0]
         rep = f[1].value
         if kind == "w":
+            pending.get(key, set()).discard(value)
             if not isinstance(rep, dict) or rep.get("status") != "ok" or rep.get("seq") != sm.seq.get(value):
                 r.labels.append("seqmap-mismatch")
                 return
@@ -354,6 +396,8 @@ def ex_chain(case):
         if et == "Write" and event.target is head:
             md = event.context.get("metadata", {})
             sm.note(md.get("key"), md.get("value"))
+            if md.get("key") in pending and not md.get("reply_future").is_resolved:
+                pending[md.get("key")].add(md.get("value"))
         elif et == "Propagate" and getattr(event.target, "name", None) in arrivals:
             md = event.context.get("metadata", {})
             arrivals[event.target.name].append((md.get("key"), md.get("seq", 0)))
@@ -364,6 +408,8 @@ def ex_chain(case):
                 read_arrival[id(fut)] = (event.target.name, event.time.nanoseconds, event.target.store.get_sync(k))
                 if k in KEYS and len({watch.current(nm, k) for nm in names}) > 1:
                     overlap_reads[0] += 1
+                if len(pending.get(k, ())) >= 2:
+                    crowded_reads[0] += 1
         base_on_event(event)
 
     watch.on_resolved = on_resolved
@@ -385,12 +431,17 @@ def ex_chain(case):
     if safe:
         r.nontrivial = len({k for _, k, _, _ in writes}) < len(writes) and (not craq or overlap_reads[0] > 0 or bool(reads))
     elif craq:
-        r.nontrivial = inv or overlap_reads[0] > 0
+        r.nontrivial = inv or overlap_reads[0] > 0 or crowded_reads[0] > 0
     else:
         r.nontrivial = inv
     r.labels += [f"n{n}", "inversion" if inv else "in-order", "unacked" if unacked else "all-acked",
-                 "read-during-write" if overlap_reads[0] else "no-read-during-write"]
-    r.target = float(sum(len(rn.inversions(a)) for a in arrivals.values()) + overlap_reads[0])
+                 "read-during-write" if overlap_reads[0] else "no-read-during-write",
+                 "read-with-2-writes-pending" if crowded_reads[0] else "no-crowded-read",
+                 "slow-tail" if twl is not None and twl > 4 else "even-latencies"]
+    if craq and not safe:
+        r.target = float(min(crowded_reads[0], 40)) + float(inv)
+    else:
+        r.target = float(sum(len(rn.inversions(a)) for a in arrivals.values()) + overlap_reads[0])
     return r
 
 
@@ -611,8 +662,12 @@ OBLIGATIONS = [
                "plain chain, restricted domain: writes to one key 128 ticks apart; no exclusions. Non-trivial = some "
                "key written at least twice."),
     Obligation("craq", chain_strategy(True, False), ex_chain, {"quick": 520, "thorough": 100000},
-               _RULE_NET + "CRAQ chain of 2..4 nodes, up to 6 reads at any node at times 0..60 ticks. Non-trivial = "
-               "inverted Propagate delivery or a read arriving while the nodes disagree on its key (write in flight)."),
+               _RULE_NET + "CRAQ chain of 2..4 nodes, tail write latency drawn independently (slow tail up to 16 ticks), "
+               "writes either scattered or in bursts of 2..3 to one key 0..4 ticks apart (applications overlap at the tail), "
+               "up to 6 scattered reads plus an optional dense scan (one read per tick or half tick at every node for 6..32 "
+               "steps after the first write); hypothesis.target = reads arriving while >= 2 writes to their key are "
+               "unacknowledged. Non-trivial = inverted Propagate delivery, a read arriving while the nodes disagree on its "
+               "key, or a read arriving with >= 2 writes to its key pending."),
     Obligation("craq-safe", chain_strategy(True, True), ex_chain, {"quick": 260, "thorough": 40000},
                "CRAQ, restricted domain: writes to one key 128 ticks apart, read latency 0 and reads issued 1000 ns off the "
                "tick grid (dirty check and local read atomic); reads placed around the writes; no exclusions. Non-trivial = some "
